@@ -345,7 +345,11 @@ def abort_bookkeeping(cpu, ab):
     s = cpu.s
     msa = cpu.cfg['memory_system_architecture']
     tge = (s['hcr'] >> 27) & 1
-    if msa == 'VMSA' and ab.kind == 'alignment':
+    if msa == 'VMSA' and ab.kind == 'alignment' and 'tohyp' in ab.info:
+        # raised by TranslateAddressV for an unaligned access to Device / Strongly-ordered memory: AlignmentFaultV is
+        # called with taketohypmode = ishyp (B3.19), not with the HCR.TGE term of AlignmentFault()
+        tohyp = bool(ab.info['tohyp'])
+    elif msa == 'VMSA' and ab.kind == 'alignment':
         tohyp = cpu.mode == M_HYP or (cpu.have_virt() and tge == 1)
     elif msa == 'VMSA':
         tohyp = cpu.mode == M_HYP                      # stage-1 faults of the Hyp-mode regime
